@@ -30,7 +30,7 @@ import itertools
 import re
 from fractions import Fraction
 
-from .. import core, gen
+from .. import accessors, core, gen
 
 RULE = ("histories over 4 slots of real Atoms objects (about half of the structures have an atom type whose mass is not the "
         "periodic-table mass of its element and whose label differs from the element); ops construct/copy/delete/pop/extend/replicate/getitem; valid "
@@ -112,9 +112,33 @@ def has_odd_mass(aj):
     return any(e not in M or abs(float(core.unq(m)) - M[e]) > 0.1 for e, m in zip(t["elem"], t["mass"]))
 
 
+# neighbours in the periodic table whose masses are NOT in the order of their atomic numbers: a mass -> element lookup
+# that assumes a sorted table goes wrong exactly here (and LAMMPS files store masses, not elements)
+INVERTED = ["Ar", "K", "Co", "Ni", "Te", "I", "Th", "Pa"]
+
+
+def inverted_elements(aj, rng, p=1.0):
+    """with probability p re-cast the atom types of `aj` as elements taken from the mass-inverted neighbour pairs
+    (table masses, labels follow)"""
+    t = aj["types"]
+    if not t["elem"] or rng.random() >= p:
+        return aj
+    M = gen.masses()
+    pair = rng.choice([INVERTED[0:2], INVERTED[2:4], INVERTED[4:6], INVERTED[6:8]])
+    pool = pair + [rng.choice(INVERTED), rng.choice(gen.ELEMENTS)]
+    new = [pool[i] if i < 2 else rng.choice(pool) for i in range(len(t["elem"]))]
+    rng.shuffle(new)
+    labels = []
+    for old_e, lab, e in zip(t["elem"], t["label"], new):
+        labels.append(e if lab == old_e else e + lab[len(old_e):] if lab.startswith(old_e) else lab)
+    t["elem"], t["label"] = new, labels
+    t["mass"] = [core.q(M[e]) for e in new]
+    return aj
+
+
 def rand_struct(rng, tg, nmax=8, **kw):
     n = rng.randint(1, nmax)
-    aj = odd_mass(gen.rand_atoms(rng, n=n, **kw), rng, 0.5)
+    aj = odd_mass(inverted_elements(gen.rand_atoms(rng, n=n, **kw), rng, 0.3), rng, 0.5)
     if aj.get("cell") is not None and rng.random() < 0.75:
         # most cells LAMMPS-writable so that the save/load part of the property is exercised
         if not lammps_cell(aj["cell"]):
@@ -156,7 +180,7 @@ def pool():
                        masses=(15.035, 2.0141))))     # united-atom carbon, deuterium: NOT the table masses of C / H
     # P2: same topology, no coefficient tables at all, no cell
     P.append(("P2", mk(line3, {"bond": [((0, 1), 0), ((1, 2), 1)], "angle": [((0, 1, 2), 0)]},
-                       elems=("C", "H"))))
+                       elems=("K", "Ar"))))      # table masses, in the "wrong" order of their atomic numbers
     # P3: bonds only, table exactly as long as the ids, triclinic cell, an extra column besides the tag
     P.append(("P3", mk(line3, {"bond": [((1, 0), 1), ((2, 1), 0)]}, {"bond": ["morse 1 # m0", "morse 2 # m1"]},
                        xlabels={"bond": ["_geom_bond_aux"]}, cell=TRI, elems=("O", "Zr"), labels=("O_a", "Zr_b"),
@@ -166,7 +190,7 @@ def pool():
     P.append(("Q1", mk(two, {"bond": [((0, 1), 0)]}, {"bond": ["harm 9.0 # q0"]}, elems=("N",), labels=("N_q",),
                        pair=["0.3 3.3 # N_q"], masses=(16.0225,))))     # united-atom NH2
     # Q2: fragment without tables
-    P.append(("Q2", mk(two, {"bond": [((0, 1), 0)]}, elems=("N",))))
+    P.append(("Q2", mk(two, {"bond": [((0, 1), 0)]}, elems=("Ni",))))
     # Q3: a single atom with a pair table and an (unused) bond table
     P.append(("Q3", mk([(0, (7, 0, 0), 2)], types={"bond": ["harm 7.0 # s0"]}, elems=("F",), labels=("F_s",),
                        pair=["0.4 3.4 # F_s"])))
@@ -174,6 +198,10 @@ def pool():
     P.append(("Q4", mk([(1, (5, 1, 0), 0), (0, (6, 1, 0), 0)], {"bond": [((1, 0), 1)]},
                        {"bond": ["harm 4.0 # r0", "harm 5.0 # r1"]}, cell=ORTHO, elems=("S", "Cu"), labels=("S_r", "Cu_r"),
                        masses=(32.065, 64.9278))))      # an isotope mass for Cu
+    # T1: NO atoms, but an element / label / mass / pair table and a bond table (fix 84d3f69: such a structure keeps its
+    # tables and can be extended)
+    P.append(("T1", tables_only(mk([(0, (0, 0, 0), 0)], types={"bond": ["harm 1.5 # t0"]}, cell=ORTHO, elems=("O",),
+                                   labels=("O_t",), pair=["0.5 3.1 # O_t"]))))
     return P
 
 
@@ -351,6 +379,42 @@ def np_kwargs(aj):
     return kw
 
 
+def atomless_from_json(aj):
+    """a structure WITHOUT atoms but with the type tables / labels / cell of the literal (since 84d3f69 the
+    constructor keeps them): `Atoms(atom_type_elements=…, atom_type_labels=…, …)`"""
+    from mofun import Atoms
+    ty, xl = aj["types"], aj["xlabels"]
+    kw = {}
+    if ty.get("elem"):
+        kw["atom_type_elements"] = list(ty["elem"])
+    if ty.get("label"):
+        kw["atom_type_labels"] = list(ty["label"])
+    if ty.get("mass"):
+        kw["atom_type_masses"] = [float(core.unq(m)) for m in ty["mass"]]
+    if ty.get("pair"):
+        kw["pair_coeffs"] = list(ty["pair"])
+    if xl.get("atom"):
+        kw["extra_atom_labels"] = list(xl["atom"])
+    for k, tups, types, xf, xlab, coeffs in core.KINDS:
+        if ty.get(k):
+            kw[coeffs] = list(ty[k])
+        if xl.get(k):
+            kw[xlab] = list(xl[k])
+    if aj.get("cell") is not None:
+        kw["cell"] = [[float(core.unq(v)) for v in row] for row in aj["cell"]]
+    with core.quiet():
+        return Atoms(**kw)
+
+
+def tables_only(aj):
+    """the literal `aj` without its atoms and terms: type tables, coefficient tables, extra labels and cell stay"""
+    j = _deep(aj)
+    j["atoms"] = []
+    for k in KINDS:
+        j["terms"][k] = []
+    return j
+
+
 def attr_kwargs(o):
     """constructor keywords taken straight from the attributes of an existing object (no copies made here)"""
     kw = {"atom_types": o.atom_types, "positions": o.positions, "charges": o.charges, "groups": o.groups,
@@ -378,6 +442,8 @@ def apply_real(objs, op, cache=None):
             if op["np"] not in cache:
                 cache[op["np"]] = np_kwargs(op["a"])
             objs[op["dst"]] = Atoms(**cache[op["np"]])
+        elif not op["a"]["atoms"]:
+            objs[op["dst"]] = atomless_from_json(op["a"])
         else:
             objs[op["dst"]] = core.atoms_from_json(op["a"])
     elif k == "copy":
@@ -680,6 +746,13 @@ def check_lammps(a, d):
             return "%s coefficient table read back differs" % k
     if [norm_ws(x) for x in e["types"]["pair"]] != [norm_ws(x) for x in d["types"]["pair"]]:
         return "pair coefficient table read back differs"
+    M = gen.masses()
+    if all(el in M and abs(float(core.unq(m)) - M[el]) < 1e-4 for el, m in zip(d["types"]["elem"], d["types"]["mass"])):
+        # a LAMMPS file stores masses, not elements: when every type carries the periodic-table mass of its element
+        # the reader must find that element again (with a non-table mass anywhere it falls back to type ids: skipped)
+        if e["types"]["elem"] != [str(x) for x in d["types"]["elem"]]:
+            return "elements read back differ: %s, the object has %s (masses %s)" % (
+                e["types"]["elem"], list(d["types"]["elem"]), [round(float(core.unq(m)), 4) for m in d["types"]["mass"]])
     if e["types"]["label"] != [str(x) for x in d["types"]["label"]]:
         return "atom type labels read back differ: %s vs %s" % (e["types"]["label"], d["types"]["label"])
     if len(e["types"]["mass"]) != len(d["types"]["mass"]) or any(
@@ -701,7 +774,7 @@ class Runner:
         if init:
             for i, aj in enumerate(init):
                 if aj is not None:
-                    self.objs[i] = core.atoms_from_json(aj)
+                    self.objs[i] = core.atoms_from_json(aj) if aj["atoms"] else atomless_from_json(aj)
                     self.exp[i] = record(aj)
         self.dumps = dump_state(self.objs)
         self.oracle_on = True
@@ -723,6 +796,10 @@ class Runner:
     def step(self, op, valid=True):
         """-> (result, failure text or None); result = {"ok": dumps} | {"err": text}"""
         pre = self.dumps
+        involved = {target(op)} | ({op["src"]} if "src" in op else set())
+        for i in involved:       # accessors read BEFORE the op (whatever memoises, memoises the pre-state now)
+            if 0 <= i < NSLOTS and self.objs[i] is not None:
+                accessors.touch(self.objs[i])
         try:
             with core.quiet():
                 apply_real(self.objs, op, self.npcache)
@@ -748,6 +825,11 @@ class Runner:
                     bad = "slot %d was changed by a %s on slot %d" % (i, op["k"], tg)
                     break
                 bad = check_object(self.objs[i], self.dumps[i], self.exp[i])
+                if not bad and i in involved:
+                    # …and read AFTER it on the same object: accessors must say what the arrays say now
+                    bad = accessors.problem(self.objs[i], ase_too=(i == tg))
+                    if bad:
+                        bad = "accessor out of date: " + bad
                 if bad:
                     bad = "slot %d after %s: %s" % (i, op["k"], bad)
                     break
@@ -901,7 +983,10 @@ def rand_op(rng, run, tg, last_offsets):
             j = rng.choice(cands)
             return {"k": "construct", "dst": dst, "a": _deep(dumps[j]), "twin_of": j}
         op = {"k": "construct", "dst": dst, "a": rand_struct(rng, tg, nmax=rng.choice([3, 6, 8]))}
-        if u < 0.6:
+        if u > 0.88:
+            # an atom-less structure that carries type tables (to be extended later)
+            op["a"] = tables_only(op["a"])
+        elif u < 0.6:
             op["np"] = "r%d" % tg.n
         return op
     s = rng.choice(full)
@@ -1028,10 +1113,12 @@ def directed(rng):
                 a = retag(gen.rand_atoms(rng, n=n, kinds=[kind] + ([rng.choice(KINDS)] if rep else []), coeffs=tables,
                                          pair=tables, extras=bool(rep % 2), cell=rng.choice(["ortho", "tri+", False]),
                                          label_style="tagged"), tg)
-                odd_mass(a, rng, 0.75)
+                inverted_elements(a, rng, 0.4)
+                odd_mass(a, rng, 0.6)
                 b = retag(gen.rand_atoms(rng, n=rng.randint(ARITY[kind], 5), kinds=[kind], coeffs=tables, pair=tables,
                                          extras=bool(rep % 2), cell=False, label_style="tagged"), tg)
-                odd_mass(b, rng, 0.5)
+                inverted_elements(b, rng, 0.4)
+                odd_mass(b, rng, 0.4)
                 kill = sorted({t["a"][rng.randrange(ARITY[kind])] for t in a["terms"][kind]})
                 rest = len(a["atoms"]) - len(kill)
                 m = rand_map(rng, len(b["atoms"]), rest) if rest else []
@@ -1044,6 +1131,9 @@ def directed(rng):
                        {"k": "extend", "dst": 2, "src": 0, "offsets": None, "map": []},
                        {"k": "replicate", "src": 2, "dst": 3, "dims": [1, 2, 1]},
                        {"k": "pop", "slot": 2, "i": -1, "default": True},
+                       {"k": "construct", "dst": 3, "a": tables_only(a)},
+                       {"k": "extend", "dst": 3, "src": 1, "offsets": None, "map": []},
+                       {"k": "extend", "dst": 3, "src": 0, "offsets": None, "map": []},
                        {"k": "getitem", "src": 2, "dst": 3, "idx": [0]},
                        {"k": "getitem", "src": 1, "dst": 3, "idx": list(range(len(b["atoms"])))[::-1]},
                        {"k": "extend", "dst": 3, "src": 1, "offsets": None, "map": []}]
@@ -1360,6 +1450,8 @@ def pool_pairs(ctx, quick):
     small = [p for p in P if p[0].startswith("Q")]
     pairs = [(p, q) for p in big for q in small]
     pairs += [(small[0], small[3]), (small[3], big[0])]
+    t1 = [p for p in P if p[0] == "T1"][0]
+    pairs += [(t1, small[0]), (t1, small[2])]        # tables-only structure extended by Q1 / Q3
     return pairs
 
 
